@@ -381,7 +381,12 @@ func extValue(c *Corpus, t *T, w *W, v reflect.Value, nocopy bool, path string, 
 			return
 		}
 		if t.Key.K == Struct {
-			return // entries cannot be matched to the wire by key bytes; not walked
+			// entries cannot be matched to the wire by key bytes; in a destination that was zero before the call every
+			// key object and every value was created by this decode and is walked by shape alone
+			if fresh {
+				createdValue(c, t, v, false, path, out)
+			}
+			return
 		}
 		idx := map[string]*W{}
 		for i := 0; i+1 < len(w.L); i += 2 {
@@ -467,7 +472,28 @@ func createdValue(c *Corpus, t *T, v reflect.Value, nocopy bool, path string, ou
 			createdValue(c, t.Elem, v.Index(i), false, path+"["+strconv.Itoa(i)+"]", out)
 		}
 	case Map:
-		if v.IsNil() || v.Len() == 0 || t.Key.K == Struct {
+		if v.IsNil() || v.Len() == 0 {
+			return
+		}
+		if t.Key.K == Struct {
+			// map iteration order is not ours: entries are named by their position in the sorted order of key addresses
+			type ent struct{ k, e reflect.Value }
+			var es []ent
+			it := v.MapRange()
+			for it.Next() {
+				es = append(es, ent{it.Key(), it.Value()})
+			}
+			if !t.Key.Ptr {
+				return
+			}
+			sort.Slice(es, func(i, j int) bool { return es[i].k.Pointer() < es[j].k.Pointer() })
+			for i, x := range es {
+				kp := path + "[#" + strconv.Itoa(i) + "]?"
+				createdValue(c, t.Key, x.k, false, kp+"(key)", out)
+				if !t.Elem.Scalar() {
+					createdValue(c, t.Elem, x.e, false, kp, out)
+				}
+			}
 			return
 		}
 		it := v.MapRange()
@@ -483,6 +509,67 @@ func createdValue(c *Corpus, t *T, v reflect.Value, nocopy bool, path string, ou
 			}
 		}
 	}
+}
+
+// HoldsNoCopy reports whether the object holds a non-empty string or binary in a field declared nocopy, anywhere:
+// such an object legitimately changes when the buffer it was decoded from is overwritten. The walk goes by shape
+// (it does not need the message), so it also sees entries of struct-keyed maps and prefilled destinations.
+func HoldsNoCopy(c *Corpus, s *StructDef, rv reflect.Value, depth int) bool {
+	if depth > 64 {
+		return true
+	}
+	for _, f := range s.Fields {
+		fv := rv.FieldByName(f.Name)
+		if f.OptPtr {
+			if fv.IsNil() {
+				continue
+			}
+			fv = fv.Elem()
+		}
+		if f.NoCopy {
+			if fv.Len() > 0 {
+				return true
+			}
+			continue
+		}
+		if holdsNoCopyT(c, f.T, fv, depth+1) {
+			return true
+		}
+	}
+	return false
+}
+
+func holdsNoCopyT(c *Corpus, t *T, v reflect.Value, depth int) bool {
+	switch t.K {
+	case Struct:
+		if t.Ptr {
+			if v.IsNil() {
+				return false
+			}
+			v = v.Elem()
+		}
+		return HoldsNoCopy(c, c.Get(t.S), v, depth+1)
+	case List, Set:
+		if t.Elem.Scalar() || t.Elem.K == String || t.Elem.K == Binary {
+			return false
+		}
+		for i := 0; i < v.Len(); i++ {
+			if holdsNoCopyT(c, t.Elem, v.Index(i), depth+1) {
+				return true
+			}
+		}
+	case Map:
+		if v.IsNil() {
+			return false
+		}
+		it := v.MapRange()
+		for it.Next() {
+			if holdsNoCopyT(c, t.Key, it.Key(), depth+1) || holdsNoCopyT(c, t.Elem, it.Value(), depth+1) {
+				return true
+			}
+		}
+	}
+	return false
 }
 
 // keyBytes serialises a scalar/string Go map key the way it appears on the wire.
